@@ -47,24 +47,24 @@ Proof.
   - intros Z. exists st6. exact (M Z).
 Qed.
 
-(* the guard and the other hypotheses are satisfiable: the real crash image *)
+(* the guard and the other hypotheses are satisfiable: the real crash image (s1 := fst o1, rc1 := snd o1, s2 := fst o2, ...) *)
 Lemma rt_ex_crash_image :
-  exists c s1 rc1 s2 s3 s5 r6 h6,
-    rp_scan rpp_crash_image = inr c /\ rp_links_forward rpp_crash_image = true /\ rw_heads_below rpp_crash_image = true /\
-    rp_raw_open (rp_io_ c) true = (s1, rc1) /\ rp_chunk_seek s1 (rp_offset (rp_r (rp_io_ c))) = (s2, 0) /\ rp_rd_chunk s2 = (s3, 0) /\
-    rp_chunk_seek (rp_w_io (rp_bk_truncate (rp_w_set_io (rp_w_set_io (rp_w0 c) s1) s3))) (rp_offset (rp_r (rp_io_ c))) = (s5, 0) /\
-    wm_raw_wr (wm_b_raw (rp_wm_base (rp_w_set_io (rp_bk_truncate (rp_w_set_io (rp_w_set_io (rp_w0 c) s1) s3)) s5) 0))
-              (wm_ck_hdr (rp_cur s5)) (rp_payload s5) = (r6, h6) /\
-    rt_guard_b rpp_crash_image
-      (rp_log (rp_repair_all_pointers
-         (rp_w_set_io (rp_commit (rp_w_set_io (rp_bk_truncate (rp_w_set_io (rp_w_set_io (rp_w0 c) s1) s3)) s5)
-                        (wm_b_set_raw (rp_wm_base (rp_w_set_io (rp_bk_truncate (rp_w_set_io (rp_w_set_io (rp_w0 c) s1) s3)) s5) 0) r6))
-            (rp_io_set_cur (rp_w_io (rp_commit (rp_w_set_io (rp_bk_truncate (rp_w_set_io (rp_w_set_io (rp_w0 c) s1) s3)) s5)
-                        (wm_b_set_raw (rp_wm_base (rp_w_set_io (rp_bk_truncate (rp_w_set_io (rp_w_set_io (rp_w0 c) s1) s3)) s5) 0) r6)))
-               {| wm_ck_offset := wm_ck_offset (rp_cur s5); wm_ck_hdr := h6 |})))) = true.
-Proof.
-  do 8 eexists.
-  split; [vm_compute; reflexivity |]. split; [vm_compute; reflexivity |]. split; [vm_compute; reflexivity |].
-  split; [vm_compute; reflexivity |]. split; [vm_compute; reflexivity |]. split; [vm_compute; reflexivity |].
-  split; [vm_compute; reflexivity |]. split; [vm_compute; reflexivity |]. vm_compute; reflexivity.
-Qed.
+  match rp_scan rpp_crash_image with
+  | inr c =>
+    let pos := rp_offset (rp_r (rp_io_ c)) in
+    let o1 := rp_raw_open (rp_io_ c) true in
+    let o2 := rp_chunk_seek (fst o1) pos in
+    let o3 := rp_rd_chunk (fst o2) in
+    let w4 := rp_bk_truncate (rp_w_set_io (rp_w_set_io (rp_w0 c) (fst o1)) (fst o3)) in
+    let o5 := rp_chunk_seek (rp_w_io w4) pos in
+    let w5 := rp_w_set_io w4 (fst o5) in
+    let o6 := wm_raw_wr (wm_b_raw (rp_wm_base w5 0)) (wm_ck_hdr (rp_cur (fst o5))) (rp_payload (fst o5)) in
+    let w6 := rp_commit w5 (wm_b_set_raw (rp_wm_base w5 0) (fst o6)) in
+    let w6a := rp_w_set_io w6 (rp_io_set_cur (rp_w_io w6) {| wm_ck_offset := wm_ck_offset (rp_cur (fst o5)); wm_ck_hdr := snd o6 |}) in
+    rp_links_forward rpp_crash_image = true /\ rw_heads_below rpp_crash_image = true /\
+    snd o2 = 0 /\ snd o3 = 0 /\ snd o5 = 0 /\
+    rt_guard_b rpp_crash_image (rp_log (rp_repair_all_pointers w6a)) = true /\
+    length (rp_log (rp_repair_all_pointers w6a)) = 8%nat
+  | inl _ => False
+  end.
+Proof. vm_compute. repeat split. Qed.
